@@ -4,7 +4,10 @@ C26.1 is the dimension analysis (DESIGN.md E8 / R8): an abstract
 interpretation of LeaseCheckingCrawler.process_share over the domain
 {Timestamp, Duration, scalar, unknown}.  C26.2 is a path-sensitive symbolic
 decision table of the per-lease expiry decision; C26.3-C26.5 are the guarded
-effects, the unlink conditions and the configuration plumbing."""
+effects, the unlink conditions and the configuration plumbing.  C26.6 re-derives
+the decision table of C26.2 from the loop-head invariant state, so that state
+carried over from an earlier lease (a flag initialised once before the loop, an
+attribute, the queue itself) cannot steer the verdict on a later lease."""
 from fractions import Fraction
 
 from sa.h import *
@@ -21,7 +24,10 @@ EXPLANATION = (
     "for members of that list; the crawler has no other deleting effect; (4) both containers unlink the share file "
     "only when no lease remains after the cancellation; (5) tahoe.cfg expire.* keys reach the matching constructor "
     "parameters through parse_duration / parse_date, expiration is off by default, and the crawler's policy "
-    "attributes are bound only in __init__. "
+    "attributes are bound only in __init__; (6) the decision table of (2) holds in every iteration of the lease loop, "
+    "not only the first: it is re-derived from the loop-head state of a constant-propagation fixpoint in which every "
+    "local, self attribute or container written by the loop body is an opaque value left by the previous lease unless "
+    "each pass provably re-establishes its pre-loop constant - so no lease's verdict depends on an earlier lease's. "
     "Undecided: clock values, the arithmetic of parse_duration/parse_date (C48), lease record (de)serialisation "
     "(C25), that one crawl cycle reaches every share (C27).")
 TECHNIQUE = ("static analysis: dimension abstract interpretation over the CFG, symbolic path enumeration of the "
